@@ -203,7 +203,7 @@ fn judge(c: &Case, m: &Mat, observed: Result<BTreeMap<Vec<u8>, u8>, String>, ctx
         format!(
             "k={} rc={} min_count={} min_qual={} rule={} split_at={} reads={:?}",
             c.k, c.rc, c.min_count, c.min_qual, ["none", "middle", "strict"][c.rule as usize % 3], m.split,
-            m.reads.iter().map(|(s, q)| format!("{}/{}", lossy(s), lossy(q))).collect::<Vec<_>>()
+            if m.reads.len() > 60 { vec![format!("{} reads (not listed)", m.reads.len())] } else { m.reads.iter().map(|(s, q)| format!("{}/{}", lossy(s), lossy(q))).collect::<Vec<_>>() }
         )
     };
     let obs = match observed {
@@ -365,6 +365,77 @@ fn post(rt: &mut Runtime) {
     }
 }
 
+// ---- dense: tens of thousands of distinct k-mers in one sample (the counting filter's blocks fill up) ----
+
+#[derive(Clone, Debug, Serialize, Deserialize)]
+pub struct DenseCase {
+    pub k: usize,
+    pub rc: bool,
+    pub min_count: u16,
+    pub genome_len: usize,
+    pub read_len: usize,
+    pub seed: u64,
+}
+
+fn dense_strategy() -> BoxedStrategy<DenseCase> {
+    (prop::sample::select(vec![15usize, 21, 31, 33, 41]), prop::bool::weighted(0.7), 2u16..=4, 12_000usize..40_000, 100usize..151, any::<u64>())
+        .prop_map(|(k, rc, min_count, genome_len, read_len, seed)| DenseCase { k, rc, min_count, genome_len, read_len, seed })
+        .boxed()
+}
+
+fn dense_materialise(c: &DenseCase) -> (Case, Mat) {
+    let mut x = c.seed | 1;
+    let mut next = move || {
+        x = crate::engine::splitmix64(x);
+        x
+    };
+    let genome: Vec<u8> = (0..c.genome_len).map(|_| model::BASES[(next() >> 7) as usize % 4]).collect();
+    // reads tile the genome so that every window lies in exactly one read; every read occurs
+    // min_count times, except every seventh, which occurs once less (its k-mers stay below the count)
+    let step = c.read_len - (c.k - 1);
+    let mut reads: Vec<(Vec<u8>, Vec<u8>)> = Vec::new();
+    let mut i = 0;
+    let mut idx = 0usize;
+    while i + c.k <= genome.len() {
+        let end = (i + c.read_len).min(genome.len());
+        let s = genome[i..end].to_vec();
+        let copies = if idx % 7 == 3 { c.min_count - 1 } else { c.min_count };
+        for _ in 0..copies {
+            let r = if c.rc && next() % 2 == 0 { model::revcomp(&s) } else { s.clone() };
+            let q = vec![b'I'; r.len()];
+            reads.push((r, q));
+        }
+        i += step;
+        idx += 1;
+    }
+    // shuffle, so that other reads come between the copies of a read
+    for j in (1..reads.len()).rev() {
+        let t = (next() % (j as u64 + 1)) as usize;
+        reads.swap(j, t);
+    }
+    let split = reads.len() / 2;
+    let case = Case { k: c.k, rc: c.rc, genome: vec![], pal: None, reads: vec![], split: 0, min_count: c.min_count, min_qual: 0, rule: 0 };
+    (case, Mat { genome, reads, split })
+}
+
+fn check_dense(c: &DenseCase, ctx: &Ctx) -> Outcome {
+    let (case, m) = dense_materialise(c);
+    let dir = ctx.case_dir();
+    let (f1, f2) = write_reads(&dir, &m);
+    let obs = if c.k <= 31 { inproc::<u64>(&case, &f1, &f2) } else { inproc::<u128>(&case, &f1, &f2) };
+    ctx.done(&dir);
+    match judge(&case, &m, obs, ctx) {
+        Outcome::Fail(msg) => Outcome::Fail(format!("dense sample (genome {} bases, reads of {} bases, seed {}): {msg}", c.genome_len, c.read_len, c.seed)),
+        Outcome::Pass { key, mut classes, .. } => {
+            classes.push("dense(>=12000 distinct k-mers)".into());
+            Outcome::Pass { nontrivial: true, key, classes }
+        }
+        o => o,
+    }
+}
+
+const DENSE_RULE: &str = "generated: one sample of 12000-40000 distinct k-mers: a random genome tiled by reads of 100-150 bases so that every window lies in exactly one read, every read present min-count times (every seventh read once less), random orientation, shuffled over two FASTQ files; min-count 2-4, k in {15,21,31,33,41}; in-process build. Oracle as in the inproc stage (every k-mer that reaches the count is stored; extras within the 0.1% bound). Every case non-trivial.";
+
 const RULE: &str = "generated: genome of k+5..3k+40 bases (20% with a planted self-reverse-complement split k-mer), 2-23 reads of length k..k+30 from both strands with substitutions and N, a third of them partly lower case, each repeated 1..C+1 times so that counts straddle the threshold, per-base qualities from {Q-1,Q,Q,Q+1,Q+5,40}, reads split over two FASTQ files; min-count 1-6, min-qual 0-40, three quality rules, all k, both strand modes. Oracle (string model of counting): every (k-mer, middle base) whose full k-mer count (with its reverse complement, both files, passing windows only) reaches C is stored, nothing never observed at passing quality is stored, below-count extras <= max(1, 0.1% of distinct) per case and < 0.1% in aggregate; a sample where nothing reaches the count is refused. Non-trivial: a k-mer with count C or C-1 and a base with quality exactly Q and >=1 k-mer reaching the count.";
 
 fn show(c: &Case) -> serde_json::Value {
@@ -378,6 +449,7 @@ fn stages(tier: Tier) -> Vec<Box<dyn Stage>> {
     vec![
         gen_stage_show("inproc", RULE, tier.pick(8000, 100_000), 400, case_strategy, check_inproc, show),
         gen_stage_show("cli", RULE, tier.pick(1200, 12_000), 150, case_strategy, check_cli, show),
+        gen_stage_show("dense", DENSE_RULE, tier.pick(48, 640), 10, dense_strategy, check_dense, |c| serde_json::to_value(c).unwrap()),
     ]
 }
 
